@@ -80,6 +80,7 @@ type Frame struct {
 	defers []*deferRec
 	parent *Frame
 	cells  []frameCell // heap cells holding this frame's captured local variables
+	ranks  map[*ssa.Alloc]int
 }
 
 // frameCell: a local variable that lives in a heap cell because a closure captures it.
@@ -100,6 +101,51 @@ func (x *Exec) newFrame(fn *ssa.Function, parent *Frame) *Frame {
 	fr := &Frame{id: x.frameSeq, fn: fn, regs: map[ssa.Value]Val{}, allocN: map[string]int{}, localKeys: map[string][]string{}, paramVals: map[string]Val{}, parent: parent}
 	fr.fc = x.cs.Funcs[fn.String()]
 	return fr
+}
+
+// allocRank numbers the stack locals of a function that share a source name by source position (1-based) and
+// fills localKeys accordingly, once per frame.
+func (fr *Frame) allocRank(a *ssa.Alloc) int {
+	if fr.ranks == nil {
+		fr.ranks = map[*ssa.Alloc]int{}
+		byName := map[string][]*ssa.Alloc{}
+		seq := map[*ssa.Alloc]int{}
+		n := 0
+		for _, b := range fr.fn.Blocks {
+			for _, ins := range b.Instrs {
+				if al, ok := ins.(*ssa.Alloc); ok && !al.Heap {
+					if _, isArr := al.Type().Underlying().(*types.Pointer).Elem().Underlying().(*types.Array); isArr {
+						continue
+					}
+					name := al.Comment
+					if name == "" {
+						name = al.Name()
+					}
+					n++
+					seq[al] = n
+					byName[name] = append(byName[name], al)
+				}
+			}
+		}
+		for name, as := range byName {
+			sort.SliceStable(as, func(i, j int) bool {
+				if as[i].Pos() != as[j].Pos() && as[i].Pos().IsValid() && as[j].Pos().IsValid() {
+					return as[i].Pos() < as[j].Pos()
+				}
+				return seq[as[i]] < seq[as[j]]
+			})
+			keys := make([]string, len(as))
+			for i, al := range as {
+				fr.ranks[al] = i + 1
+				keys[i] = fmt.Sprintf("f%d.%s", fr.id, name)
+				if i > 0 {
+					keys[i] = fmt.Sprintf("f%d.%s#%d", fr.id, name, i+1)
+				}
+			}
+			fr.localKeys[name] = keys
+		}
+	}
+	return fr.ranks[a]
 }
 
 func (x *Exec) fnShort(fn *ssa.Function) string {
@@ -372,6 +418,7 @@ type loopEffects struct {
 	all    bool
 	ghosts bool
 	acquires bool // the blocks (re)acquire a monitor lock
+	ghostAll bool // some call's effect on ghost fields could not be resolved: every ghost field may change
 	why    []string
 }
 
@@ -431,8 +478,13 @@ func (x *Exec) loopHead(fr *Frame, li *loopInfo, pre *State) (*State, error) {
 		keep := map[string]Term{}
 		for k, v := range h.Heap {
 			if strings.HasPrefix(k, "GF$") {
-				// ghost fields: havocked too (a contract in the loop may update them), but by name
-				keep[k] = x.u.Fresh(k+".havoc", v.So)
+				// ghost fields change only through the modifies clauses of contracts: those a contract used in
+				// the loop names are havocked (by name), the others keep their value
+				if _, mod := eff.comps[k]; mod || eff.ghostAll {
+					keep[k] = x.u.Fresh(k+".havoc", v.So)
+				} else {
+					keep[k] = v
+				}
 			}
 		}
 		h.Heap = keep
@@ -491,10 +543,9 @@ func (x *Exec) loopHead(fr *Frame, li *loopInfo, pre *State) (*State, error) {
 		}
 	}()
 	// implicit invariant: the heap differs from the entry heap only where the modifies clause allows
-	if !eff.all {
-		if err := x.frameInvariant(fr, li, pre, h, eff, true); err != nil {
-			return nil, err
-		}
+	// (after a full havoc only ghost fields keep a frame: ordinary components are unknown anyway)
+	if err := x.frameInvariant(fr, li, pre, h, eff, true); err != nil {
+		return nil, err
 	}
 	// assume invariants
 	for _, c := range invs {
@@ -513,6 +564,12 @@ func (x *Exec) loopHead(fr *Frame, li *loopInfo, pre *State) (*State, error) {
 	h.Snap["iter"] = nil
 	delete(h.Snap, "iter")
 	h.Snap["iter"] = h.Clone() // at(iter, e): e at the start of the current iteration of the innermost loop
+	if fr.top {
+		// at(iterN, e): e at the start of the current iteration of loop N (survives inner loops)
+		lab := fmt.Sprintf("iter%d", li.ordinal)
+		delete(h.Snap, lab)
+		h.Snap[lab] = h.Snap["iter"]
+	}
 	if eff.acquires {
 		// the loop only waits on the monitor: "the state when the lock was last acquired" is the head state
 		h.Snap["lock"] = h.Clone()
@@ -582,7 +639,7 @@ func (x *Exec) loopBack(fr *Frame, li *loopInfo, st *State) error {
 		o := x.u.AddObligation(x.topName, fmt.Sprintf("inv-preserved.%sL%d.range", x.inlineTag(fr), li.ordinal), li.head.Instrs[0].Pos(), x.labels, "-1 <= rangeindex < len (implicit)", st.PC, g)
 		o.Func = fname
 	}
-	if eff := x.loopEff[fmt.Sprintf("f%d.L%d", fr.id, li.ordinal)]; eff != nil && !eff.all {
+	if eff := x.loopEff[fmt.Sprintf("f%d.L%d", fr.id, li.ordinal)]; eff != nil {
 		if err := x.frameInvariant(fr, li, st, nil, eff, false); err != nil {
 			return err
 		}
@@ -597,6 +654,15 @@ func (x *Exec) loopBack(fr *Frame, li *loopInfo, st *State) error {
 				return engineErr("%s loop %d invariant %q: %v", fname, li.ordinal, c.Text, err)
 			}
 			o := x.u.AddObligation(x.topName, fmt.Sprintf("inv-preserved.%sL%d.c%d", x.inlineTag(fr), li.ordinal, ci+1), li.head.Instrs[0].Pos(), x.lab(c.Labels), c.Text, st.PC, g)
+			o.Func = fname
+		case "step":
+			// "loop N step e": e holds at the end of every iteration (checked at each back edge, never assumed);
+			// at(iter, x) in e is x at the start of the iteration
+			g, err := env.Bool(c.E)
+			if err != nil {
+				return engineErr("%s loop %d step %q: %v", fname, li.ordinal, c.Text, err)
+			}
+			o := x.u.AddObligation(x.topName, fmt.Sprintf("step.%sL%d.c%d", x.inlineTag(fr), li.ordinal, ci+1), li.head.Instrs[0].Pos(), x.lab(c.Labels), c.Text, st.PC, g)
 			o.Func = fname
 		case "decreases":
 			v, err := env.Eval(c.E)
@@ -637,8 +703,8 @@ func (x *Exec) frameInvariant(fr *Frame, li *loopInfo, pre *State, h *State, eff
 		if !so.IsArray() || strings.HasPrefix(name, "G$") {
 			continue
 		}
-		if all && !strings.HasPrefix(name, "GF$") {
-			// "modifies heap": only ghost fields keep a frame (callers keep them across the call)
+		if (all || eff.all) && !strings.HasPrefix(name, "GF$") {
+			// "modifies heap" / a loop that havocs the whole heap: only ghost fields keep a frame
 			continue
 		}
 		var mine []modTarget
@@ -952,6 +1018,26 @@ func (x *Exec) effectsOfCall(fr *Frame, ci ssa.CallInstruction, eff *loopEffects
 				return
 			}
 		}
+		// a function value loaded from a struct field / of a named function type that carries a contract
+		if ld, ok := c.Value.(*ssa.UnOp); ok {
+			if fa, ok := ld.X.(*ssa.FieldAddr); ok {
+				owner := fa.X.Type().Underlying().(*types.Pointer).Elem()
+				if n, ok := types.Unalias(owner).(*types.Named); ok && n.Obj().Pkg() != nil {
+					key := "field:(" + n.Obj().Pkg().Path() + "." + n.Obj().Name() + ")." + structOf(owner).Field(fa.Field).Name()
+					if fc := x.cs.Funcs[key]; fc != nil {
+						x.fieldContractEffects(fc, fa.X.Type(), c.Signature(), eff)
+						return
+					}
+				}
+			}
+		}
+		if n, ok := types.Unalias(c.Value.Type()).(*types.Named); ok && n.Obj().Pkg() != nil {
+			if fc := x.cs.Funcs["type:"+n.Obj().Pkg().Path()+"."+n.Obj().Name()]; fc != nil {
+				x.fieldContractEffects(fc, nil, c.Signature(), eff)
+				return
+			}
+		}
+		// an unknown function value: no contract, hence no effect on ghost fields
 		eff.why = append(eff.why, "exec.go:932")
 		eff.all = true
 		return
@@ -1074,6 +1160,7 @@ func (x *Exec) contractEffects(fc *FuncContract, callee *ssa.Function, sig *type
 	if len(ptypes) != len(names) {
 		eff.why = append(eff.why, "exec.go:1037")
 		eff.all = true
+		eff.ghostAll = true
 		return
 	}
 	for i, n := range names {
@@ -1083,6 +1170,7 @@ func (x *Exec) contractEffects(fc *FuncContract, callee *ssa.Function, sig *type
 		x.u.Trust(fmt.Sprintf("effects of %s could not be resolved (%v): treated as modifying everything", fc.Key, err))
 		eff.why = append(eff.why, "exec.go:1045")
 		eff.all = true
+		eff.ghostAll = true
 		return
 	}
 	for _, it := range fc.Modifies {
@@ -1091,6 +1179,49 @@ func (x *Exec) contractEffects(fc *FuncContract, callee *ssa.Function, sig *type
 			x.u.Trust(fmt.Sprintf("effects of %s: modifies %s could not be resolved (%v): treated as modifying everything", fc.Key, it, err))
 			eff.why = append(eff.why, "exec.go:1052")
 			eff.all = true
+			eff.ghostAll = true
+			return
+		}
+		for i := range ts {
+			ts[i].Ref = nil
+		}
+		eff.add(ts)
+	}
+}
+
+// fieldContractEffects: effects of a call through a function value that carries a contract ("func field" /
+// "func type"): parameters are the owner object (field contracts) followed by the signature's parameters.
+func (x *Exec) fieldContractEffects(fc *FuncContract, ownerPtr types.Type, sig *types.Signature, eff *loopEffects) {
+	if len(fc.Modifies) == 0 {
+		return
+	}
+	var ptypes []types.Type
+	if ownerPtr != nil {
+		ptypes = append(ptypes, ownerPtr)
+	}
+	for i := 0; i < sig.Params().Len(); i++ {
+		ptypes = append(ptypes, sig.Params().At(i).Type())
+	}
+	names := fc.ParamNames
+	if len(names) != len(ptypes) {
+		eff.why = append(eff.why, "field contract: parameter names")
+		eff.all, eff.ghostAll = true, true
+		return
+	}
+	env := &Env{x: x, st: x.topFrame.entry, old: x.topFrame.entry, names: map[string]Val{}, pkg: x.pkgOf(fc, nil)}
+	for i, n := range names {
+		env.names[n] = x.u.FreshVal("dummy."+n, ptypes[i])
+	}
+	if err := env.bindLets(fc); err != nil {
+		eff.why = append(eff.why, "field contract: lets")
+		eff.all, eff.ghostAll = true, true
+		return
+	}
+	for _, it := range fc.Modifies {
+		ts, err := x.modTargets(env, it)
+		if err != nil {
+			eff.why = append(eff.why, "field contract: modifies "+it)
+			eff.all, eff.ghostAll = true, true
 			return
 		}
 		for i := range ts {
